@@ -19,36 +19,7 @@ func c11(c *q.Ctx) {
 	const pt = "kernel/permission/acl/ptree::"
 	const ut = "kernel/permission/acl/utils::"
 	const st = "bcs/ledger/xledger/state::"
-	tv := c.Fn(rl + "(*ThresholdValidator).Validate")
-	if tv != nil {
-		w := "rule.(*ThresholdValidator).findWeightInACL(p0,p1.Children[].Name,p1.ACL)"
-		c.ReturnIs(tv, 0, []string{"false", "(p1.ACL.Pm.AcceptValue <= phi{*" + w + "*})"}, "accept iff the sum of the members' weights reaches the threshold")
-		c.Guard(tv, q.Cond{Canon: "(2 == p1.Children[].Status)", Sense: false}, q.ToCallSameIter("ThresholdValidator.findWeightInACL"), q.Opt{})
-		c.ArgIs(tv, "ThresholdValidator.findWeightInACL", 1, "p1.Children[].Name", 1, "the weight of the child that is being counted")
-		c.ArgIs(tv, "ThresholdValidator.findWeightInACL", 2, "p1.ACL", 1, "in the rule of the node being evaluated")
-	}
-	fw := c.Fn(rl + "(*ThresholdValidator).findWeightInACL")
-	if fw != nil {
-		c.ReturnIs(fw, 0, []string{"0", "p2.AksWeight[p1]"}, "a signer outside the rule weighs nothing")
-	}
-	va := c.Fn(rl + "(*AKSetsValidator).validateAkSet")
-	if va != nil {
-		f := "rule.(*AKSetsValidator).findAkInNodeList(p0,p1.Aks[],p2)"
-		c.Guard(va, q.Cond{Canon: "(nil == " + f + ")", Sense: true}, q.ToSuccess(), q.Opt{})
-		c.Guard(va, q.Cond{Canon: "(2 == " + f + ".Status)", Sense: false}, q.ToSuccess(), q.Opt{})
-		c.Guard(va, q.Cond{Canon: "(0 == len(p1.Aks))", Sense: true}, q.ToSuccess(), q.Opt{})
-		c.Guard(va, q.Cond{Canon: "(0 == len(p2))", Sense: true}, q.ToSuccess(), q.Opt{})
-	}
-	fa := c.Fn(rl + "(*AKSetsValidator).findAkInNodeList")
-	if fa != nil {
-		c.ReturnIs(fa, 0, []string{"phi{nil|p2[]}"}, "the node returned is the child with the requested name, or nil")
-	}
-	av := c.Fn(rl + "(*AKSetsValidator).Validate")
-	if av != nil {
-		c.ArgIs(av, "AKSetsValidator.validateAkSet", 2, "p1.Children", 1, "a set is checked against the signers of this node")
-		c.ArgIs(av, "AKSetsValidator.validateAkSet", 1, "p1.ACL.AkSets.Sets[]", 1, "every listed set is tried")
-		c.Guard(av, q.Cond{Canon: "(0 == len(p1.ACL.AkSets.Sets))", Sense: true}, q.ToSuccess(), q.Opt{})
-	}
+	aclValidators(c)
 	permTree(c)
 	vp := c.Fn(ut + "validatePermTree")
 	if vp != nil {
@@ -157,5 +128,45 @@ func permTree(c *q.Ctx) {
 		c.Guard(bp, q.Cond{Canon: "(p0.Name == ptree.SplitAccountURI(p2[])[0])", Sense: false}, q.ToCallSameIter("PermNode.FindChild"), q.Opt{Unless: []q.Cond{{Canon: "p3", Sense: false}}})
 		c.Guard(bp, q.Cond{Canon: "(len(ptree.SplitAccountURI(p2[])) < 2)", Sense: true}, q.ToCallSameIter("PermNode.FindChild"), q.Opt{Unless: []q.Cond{{Canon: "p3", Sense: false}}})
 		c.Gate(bp, "AclManager.GetAccountACL", q.ToSuccess(), q.Opt{K1Only: true})
+		// every component of a signer path becomes a node: only the LAST element's signature was verified, and an
+		// address node counts only as a leaf - a path cut short turns a merely named member into a signer
+		c.FullLoop(bp, q.Cond{Canon: "(phi{(1 + loop)|0|1} < len(ptree.SplitAccountURI(p2[])))", Sense: true}, "the whole path is entered into the tree")
+		c.FullLoop(bp, q.Cond{Canon: "(#i < len(p2))", Sense: true}, "every signer path is entered into the tree")
+	}
+}
+
+// aclValidators (C11, C07): the two rule evaluators. C07's "the owner of each spent output is among the signers ...
+// through its account's access-control rule" rests on them as much as C11 does.
+func aclValidators(c *q.Ctx) {
+	const rl = "kernel/permission/acl/rule::"
+	tv := c.Fn(rl + "(*ThresholdValidator).Validate")
+	if tv != nil {
+		w := "rule.(*ThresholdValidator).findWeightInACL(p0,p1.Children[].Name,p1.ACL)"
+		c.ReturnIs(tv, 0, []string{"false", "(p1.ACL.Pm.AcceptValue <= phi{*" + w + "*})"}, "accept iff the sum of the members' weights reaches the threshold")
+		c.Guard(tv, q.Cond{Canon: "(2 == p1.Children[].Status)", Sense: false}, q.ToCallSameIter("ThresholdValidator.findWeightInACL"), q.Opt{})
+		c.ArgIs(tv, "ThresholdValidator.findWeightInACL", 1, "p1.Children[].Name", 1, "the weight of the child that is being counted")
+		c.ArgIs(tv, "ThresholdValidator.findWeightInACL", 2, "p1.ACL", 1, "in the rule of the node being evaluated")
+	}
+	fw := c.Fn(rl + "(*ThresholdValidator).findWeightInACL")
+	if fw != nil {
+		c.ReturnIs(fw, 0, []string{"0", "p2.AksWeight[p1]"}, "a signer outside the rule weighs nothing")
+	}
+	va := c.Fn(rl + "(*AKSetsValidator).validateAkSet")
+	if va != nil {
+		f := "rule.(*AKSetsValidator).findAkInNodeList(p0,p1.Aks[],p2)"
+		c.Guard(va, q.Cond{Canon: "(nil == " + f + ")", Sense: true}, q.ToSuccess(), q.Opt{})
+		c.Guard(va, q.Cond{Canon: "(2 == " + f + ".Status)", Sense: false}, q.ToSuccess(), q.Opt{})
+		c.Guard(va, q.Cond{Canon: "(0 == len(p1.Aks))", Sense: true}, q.ToSuccess(), q.Opt{})
+		c.Guard(va, q.Cond{Canon: "(0 == len(p2))", Sense: true}, q.ToSuccess(), q.Opt{})
+	}
+	fa := c.Fn(rl + "(*AKSetsValidator).findAkInNodeList")
+	if fa != nil {
+		c.ReturnIs(fa, 0, []string{"phi{nil|p2[]}"}, "the node returned is the child with the requested name, or nil")
+	}
+	av := c.Fn(rl + "(*AKSetsValidator).Validate")
+	if av != nil {
+		c.ArgIs(av, "AKSetsValidator.validateAkSet", 2, "p1.Children", 1, "a set is checked against the signers of this node")
+		c.ArgIs(av, "AKSetsValidator.validateAkSet", 1, "p1.ACL.AkSets.Sets[]", 1, "every listed set is tried")
+		c.Guard(av, q.Cond{Canon: "(0 == len(p1.ACL.AkSets.Sets))", Sense: true}, q.ToSuccess(), q.Opt{})
 	}
 }
